@@ -26,7 +26,7 @@ class InjectedFault(Exception):
 class World:
     """A plan with a registry over in-memory stores that share one strictly increasing logical clock."""
 
-    def __init__(self, uberjob, rng, maxn=9, writers=False, normalising=False):
+    def __init__(self, uberjob, rng, maxn=9, writers=False, normalising=False, spec=None):
         self.uj = uberjob
         self.rng = rng
         self.lock = threading.Lock()
@@ -35,11 +35,13 @@ class World:
         self.fault_at = None     # inject InjectedFault at the k-th operation
         self.opcount = 0
         self.normalising = normalising
+        self.slow_writes = 0
         self.plan = uberjob.Plan()
         self.reg = uberjob.Registry()
         self.nodes = []          # uberjob nodes in creation (= topological) order
         self.meta = []           # dict(kind=call|lit|source, fn, litv, args, deps, store, is_src, writer_of)
         self.stores = []
+        self.spec = spec
         self._build(maxn, writers)
 
     # ---- stores
@@ -60,6 +62,9 @@ class World:
 
             def write(s, v):
                 w.op("write-begin", s.sid)
+                if w.slow_writes:
+                    import time
+                    time.sleep(w.slow_writes)      # widen the window between a call's return and its store write taking effect
                 with w.lock:
                     w.clock += 2
                     s.v, s.t = v, w.clock
@@ -91,6 +96,8 @@ class World:
     # ---- plan
     def _build(self, maxn, writers):
         rng, plan, reg = self.rng, self.plan, self.reg
+        if self.spec is not None:
+            return self._build_spec(self.spec)
         n = rng.randrange(1, maxn + 1)
         forced = {}
         if writers:
@@ -155,12 +162,44 @@ class World:
                             self.writer_of[d] = m["store"]
                             break
 
+    def _build_spec(self, spec):
+        """spec: list of (kind, args, deps, stored) with kind in source|lit|call"""
+        plan, reg = self.plan, self.reg
+        to_add = []
+        for i, (kind, args, deps, stored) in enumerate(spec):
+            if kind == "source":
+                st = self._mkstore()
+                node = reg.source(plan, st)
+                m = dict(kind="source", fn=0, litv=0, args=[], deps=list(deps), store=st.sid, is_src=True)
+                self.set_store(st.sid, 100 + i)
+            elif kind == "lit":
+                node = plan.lit(700 + i)
+                m = dict(kind="lit", fn=0, litv=700 + i, args=[], deps=list(deps), store=None, is_src=False)
+            else:
+                node = plan.call(self._mkfn(i), *[self.nodes[a] for a in args])
+                m = dict(kind="call", fn=i + 1, litv=0, args=list(args), deps=list(deps), store=None, is_src=False)
+            if stored and kind != "source":
+                st = self._mkstore()
+                to_add.append((i, st))
+                m["store"] = st.sid
+            for d in deps:
+                plan.add_dependency(self.nodes[d], node)
+            self.nodes.append(node)
+            self.meta.append(m)
+        self.rng.shuffle(to_add)          # registry order independent of plan order (sources are registered at creation)
+        for i, st in to_add:
+            reg.add(self.nodes[i], st)
+        self.n = len(spec)
+        self.writer_of = {}
+        self.tainted = False
+
     def _mkfn(self, i):
         w = self
 
         def f(*args):
             w.op("call", i, args)
             vals = [a[1] if (isinstance(a, tuple) and a and a[0] == "read") else a for a in args]
+            vals = [x if isinstance(x, int) else -999 for x in vals]     # garbage in (e.g. None from a failed dependency) -> garbage out
             v = Fconc(i + 1, vals)
             if i in w.writer_of:
                 w.set_store(w.writer_of[i], v)
@@ -170,7 +209,8 @@ class World:
 
     # ---- snapshots / model terms
     def sigma(self):
-        return [(s.v, s.t) if s.t is not None else None for s in self.stores]
+        # a store holding anything but an int (e.g. None written by a broken engine) is reported as content -999
+        return [((s.v if isinstance(s.v, int) else -999), s.t) if s.t is not None else None for s in self.stores]
 
     def coq_terms(self, sigma, fresh, output):
         pl = core.coq_list(self.meta, lambda m: "(%s,%d%%nat,%d,%s,%s)" % (
@@ -234,14 +274,14 @@ class World:
     def fresh_dt(self, fresh):
         return None if fresh is None else EPOCH + dt.timedelta(seconds=fresh)
 
-    def run(self, output, fresh, workers=None, scheduler=None, max_errors=0, dry_run=False, fault_at=None):
+    def run(self, output, fresh, workers=None, scheduler=None, max_errors=0, dry_run=False, fault_at=None, transform=None):
         self.log = []
         self.opcount = 0
         self.fault_at = fault_at
         try:
             res = self.uj.run(self.plan, registry=self.reg, output=None if output is None else self.nodes[output],
                               fresh_time=self.fresh_dt(fresh), max_workers=workers, scheduler=scheduler,
-                              max_errors=max_errors, progress=None, dry_run=dry_run)
+                              max_errors=max_errors, progress=None, dry_run=dry_run, transform_physical=transform)
             return ("ok", res)
         except self.uj.CallError as e:
             return ("callerror", e)
@@ -313,6 +353,12 @@ class Campaign:
                   "log": [(k, i) for k, i, _ in log][:200], "status": res[0]}
         if not w.writer_of:
             self.cases.append((w.coq_terms(sigma, fresh, output), obs, replay, len(w.meta), len(w.stores)))
+        # a "writer" call that ran although the dependent source it rewrites was up to date changed a source's content
+        # behind the run's back (the generator lets writers be ordinary arguments too): outside the properties' assumptions
+        for i, sid in w.writer_of.items():
+            if i in calls and node_of_store[sid] not in stale_real:
+                w.tainted = True
+                ctx.count("writer_ran_on_fresh_source", 1)
         # ---- monitors (model-free)
         scr = w.scratch(sigma)
         utd, ood = w.up_to_date(sigma, fresh)
@@ -423,9 +469,64 @@ def random_fresh(w, rng):
     return ts[-1] + 1
 
 
+TARGETED = {
+    # stored -> unstored -> stored (+ a second stored consumer): staleness must flow through the unstored node
+    "stored-unstored-stored": [("source", [], [], False), ("call", [0], [], True), ("call", [1], [], False),
+                               ("call", [2], [], True), ("call", [1, 3], [], True)],
+    # plain dependency from a stored node to an unstored consumer, and to a dependent source
+    "dep-edges": [("source", [], [], False), ("call", [0], [], True), ("call", [0], [1], False),
+                  ("source", [], [1], False), ("call", [2, 3], [], True)],
+    # registered literal and literal with predecessors
+    "literals": [("source", [], [], False), ("call", [0], [], True), ("lit", [], [1], False),
+                 ("lit", [], [], True), ("call", [3, 1], [2], True)],
+    # two sources, fan-in, chain of unstored calls
+    "fan-in": [("source", [], [], False), ("source", [], [], False), ("call", [0], [], False), ("call", [2, 1], [], False),
+               ("call", [3], [], True), ("call", [4, 0], [], False), ("call", [5], [], True)],
+}
+
+
+def targeted_histories(ctx, camp):
+    """Fixed small worlds x a fixed history that exercises every operation kind."""
+    rng = ctx.rng
+    for name, spec in TARGETED.items():
+        for variant in range(ctx.n(2, 8)):
+            w = World(camp.uj, rng, spec=spec)
+            last = w.n - 1
+            stored = [i for i, m in enumerate(w.meta) if m["store"] is not None and not m["is_src"]]
+            srcs = [m["store"] for m in w.meta if m["is_src"]]
+            script = ["run", "run_none", "update", "run", "run_none", "delete", "run", "run_none", "fresh", "run_none",
+                      "update", "cut", "run_none", "delete", "cut", "run"]
+            for step, op in enumerate(script):
+                out = rng.choice([None, last, rng.randrange(w.n)])
+                if op == "run":
+                    camp.observe_run(w, out, None, [name, step, op], workers=rng.choice([1, 3]), scheduler=rng.choice([None, "random"]))
+                elif op == "run_none":
+                    res, obs = camp.observe_run(w, None, None, [name, step, op])
+                    if res[0] == "ok":
+                        sigma = w.sigma()
+                        res2 = w.run(None, None)
+                        ops = [(k, i) for k, i, _ in w.log if k in ("call", "read", "write")]
+                        utd_s, _ = w.up_to_date(sigma, None)
+                        if res2[0] == "ok" and ops and not [i for i, m in enumerate(w.meta) if m["is_src"] and not utd_s[i]]:
+                            camp.add("C05", "repeat-not-idempotent", "a repeated run with no output performed %r" % (ops[:6],),
+                                     {"meta": w.meta, "sigma": sigma, "ops": ops, "world": name})
+                elif op == "update":
+                    w.set_store(rng.choice(srcs), rng.randrange(1, 1000))
+                elif op == "delete":
+                    s = w.meta[rng.choice(stored)]["store"]
+                    w.stores[s].v = w.stores[s].t = None
+                elif op == "fresh":
+                    camp.observe_run(w, out, random_fresh(w, rng), [name, step, op])
+                elif op == "cut":
+                    cut_and_repair(ctx, camp, w, out, [name, step, op])
+                ctx.case(("targeted", name, variant, step, tuple(str(x) for x in w.sigma())))
+                ctx.count("targeted_world", name)
+
+
 def history_campaign(ctx, camp, n_worlds, steps, props_cut=True):
     """Random worlds x random histories; every run in the history is observed."""
     rng = ctx.rng
+    targeted_histories(ctx, camp)
     for wi in range(n_worlds):
         w = World(camp.uj, rng, maxn=ctx.n(8, 10), writers=(wi % 5 == 4))
         ctx.count("world_nodes", w.n)
@@ -494,7 +595,8 @@ def cut_and_repair(ctx, camp, w, output, desc):
     if total == 0:
         return
     k = rng.randrange(1, total + 1)
-    res = w.run(output, None, workers=rng.choice([1, 3]), scheduler=rng.choice([None, "random"]), fault_at=k)
+    res = w.run(output, None, workers=rng.choice([1, 3]), scheduler=rng.choice([None, "random"]), fault_at=k,
+                max_errors=rng.choice([0, 0, 1, None]))
     cutlog = [(a, b) for a, b, _ in w.log]
     sigma1 = w.sigma()
     replay = {"meta": w.meta, "sigma_before": sigma0, "cut_at": k, "of": total, "log": cutlog[:200], "sigma_after_cut": sigma1, "desc": desc}
